@@ -128,7 +128,9 @@ pub fn plan(quick: bool) -> Vec<Part> {
     for k in BIG_K {
         v.push(mk(if quick { "catalogue/star" } else { "catalogue/full" }, k, Space { segs: vec![catalogue(k)] }, if quick { 1 } else { 2 }));
         if !quick || LIFT_QUICK_K.contains(&k) {
-            v.push(mk(if quick { "lifted/star" } else { "lifted/full" }, k, vcommon::families::lifted(k, !quick), if quick { 1 } else { 2 }));
+            // (the thorough tier crosses the quick-size lifted family with the star of configurations for every wide type;
+            // the deep family x full cross product would be ~10^9 pipeline runs)
+            v.push(mk("lifted/star", k, vcommon::families::lifted(k, false), 1));
         }
     }
     v
